@@ -18,7 +18,11 @@ from hypothesis import strategies as st
 
 from lib import budget, runner, stateful
 
-POOL = ["a", "A", "b", "B", "c", "x y", "x_y"]
+# ASCII case pairs, a space/underscore pair, and non-ASCII labels: an ordinary accented case pair, and labels for which
+# the ways of "ignoring case" disagree (str.lower / str.upper / str.casefold give different equivalences: sharp s, a
+# ligature, Greek final sigma).  The reference rule is the documented one: case-insensitive = equal under str.lower().
+POOL = ["a", "A", "b", "B", "c", "x y", "x_y", "Stra\u00dfe", "STRA\u00dfE", "\u00e9a", "\u00c9a", "\ufb01n", "\u03bf\u03c2"]
+NONASCII = set(x for x in POOL if any(ord(ch) > 127 for ch in x))
 NL = len(POOL)
 
 CONFIG = {
@@ -35,14 +39,14 @@ CONFIG = {
              "TAXA/CHARACTERS/TREES blocks, new_tree_list, new_char_matrix, attach/detach, unify_taxon_namespaces) and "
              "CharacterMatrix (new_sequence, [key]=, migrate/reconstruct, add/replace/update/extend_sequences, "
              "extend_matrix, copy constructor into a foreign namespace) plus loose-tree migrate/clone; all objects use "
-             "labels from the pool a,A,b,B,c,'x y','x_y' under 3 shared pool namespaces (case-insensitive, "
+             "labels from the pool a,A,b,B,c,'x y','x_y',Straße,STRAßE,éa,Éa,ﬁn,ος under 3 shared pool namespaces (case-insensitive, "
              "case-sensitive, case-insensitive) or fresh ones, with optional duplicate-label taxa. After every step the "
              "full record model is compared (namespace identity, membership, per-slot label preservation under the "
              "namespace's case rule, equal labels <=> one taxon, exact namespace growth, untouched objects unchanged). "
              "Non-trivial = history in which a foreign object (other namespace) created before the last modification of "
              "the target container is imported, or a DataSet unification over >= 2 namespaces whose label sets overlap; "
              "distinct = (init, op sequence with all arguments incl. label sets)."),
-    "assumptions": ["labels come from a 7-label pool (overlap, disjointness and case variants are the point)",
+    "assumptions": ["labels come from a 13-label pool (overlap, disjointness, ASCII and non-ASCII case variants, special case foldings are the point); case-insensitive means equal under str.lower(), as Taxon.lower_cased_label defines it",
                     "operations are called inside their documented preconditions; documented refusals (foreign namespace "
                     "for TreeArray.add_tree / matrix bulk operations / new_tree, foreign taxon for new_sequence and [key]=, "
                     "two rows colliding on one taxon) are expected as exactly that error",
@@ -76,7 +80,7 @@ def fd(**kw):
 # compact encodings (few draws; decoded by expand_mk / expand_doc)
 TREE = dict(ls=st.lists(LBL, min_size=2, max_size=5), shape=I, il=st.integers(-5, NL - 1))
 MK = fd(ns=NSSEL, how=HOW, **TREE)
-DOC = fd(nexus=B, mask=st.integers(0, 127), rot=st.integers(0, 6), t1=I, t2=I, rows=I, quote=B, translate=B)
+DOC = fd(nexus=B, mask=st.integers(0, 2 ** NL - 1), rot=st.integers(0, NL - 1), t1=I, t2=I, rows=I, quote=B, translate=B)
 SRC = fd(kind=st.integers(0, 2), s=I, i=st.integers(0, 4), j=st.integers(0, 6), n=st.integers(1, 3))
 
 
@@ -108,7 +112,7 @@ def decode_spec(ls, shape, il):
 def expand_mk(mk):
     if isinstance(mk, int):
         n = mk
-        ls = [n % 7, (n // 7) % 7] + ([(n // 49) % 7] if n % 3 else []) + ([(n // 11) % 7] if n % 4 == 0 else [])
+        ls = [n % NL, (n // NL) % NL] + ([(n // 7) % NL] if n % 3 else []) + ([(n // 11) % NL] if n % 4 == 0 else [])
         return {"spec": decode_spec(ls, n // 5, -1), "ns": n % 9, "how": "require"}
     if "spec" in mk:
         return mk
@@ -124,11 +128,11 @@ def expand_doc(doc):
             break
         if (i + doc["rot"]) % NL not in labels:
             labels.append((i + doc["rot"]) % NL)
-    trees = [{"n": 2 + doc["t1"] % 4, "perm": (doc["t1"] // 4) % 7, "shape": doc["t1"] // 28}]
+    trees = [{"n": 2 + doc["t1"] % 4, "perm": (doc["t1"] // 4) % NL, "shape": doc["t1"] // 28}]
     if doc["t2"] % 3 == 0:
-        trees.append({"n": 2 + doc["t2"] % 4, "perm": (doc["t2"] // 4) % 7, "shape": doc["t2"] // 28})
+        trees.append({"n": 2 + doc["t2"] % 4, "perm": (doc["t2"] // 4) % NL, "shape": doc["t2"] // 28})
     r = doc["rows"]
-    rows = [r % 7, (r // 7) % 7, (r // 49) % 7][:r % 4]
+    rows = [r % NL, (r // NL) % NL, (r // 7) % NL][:r % 4]
     return {"schema": "nexus" if doc["nexus"] else "newick", "labels": labels, "trees": trees, "rows": rows,
             "quote": doc["quote"], "translate": doc["translate"]}
 
@@ -520,6 +524,10 @@ class Interp(object):
                 groups.setdefault(K(l), []).append((o, l, n))
             for k, grp in groups.items():
                 pm = prek.get(k, [])
+                if pm and any(x[1] in NONASCII for x in grp):
+                    self.ctx.cls("label_matched_to_existing_taxon:non_ascii:%s" % ("case_sensitive_ns" if ns.is_case_sensitive else "case_insensitive_ns"))
+                    if not ns.is_case_sensitive and any(x[1].casefold() != x[1].lower() or x[1].upper().lower() != x[1].lower() for x in grp):
+                        self.ctx.cls("label_matched_to_existing_taxon:lower_casefold_upper_disagree:case_insensitive_ns")
                 for o, l, n in grp:
                     if pm:
                         V(any(n is t for t in pm), "duplicate_created_for_existing_label",
